@@ -404,3 +404,26 @@ def report(run, prop, fails, dis, what):
                                        % (len(dis), what, json.dumps(dis[0], ensure_ascii=False)[:500]),
                                        detail=json.dumps(dis[:3], ensure_ascii=False)))
     run.cov["oracle_failures"] = len(fails)
+
+
+def forward_inconsistency(d):
+    """The forward pass on the engine's own numbers: every node's forward score must be the best, over its connectable
+    predecessors, of predecessor forward score + edge score + the node's own score.  Returns a description or None."""
+    if d["lattice"] is None or d["edges"] is None:
+        return None
+    fwd = {"bos": 0}
+    for pos in d["lattice"]:
+        for nd in pos:
+            fwd[nd["id"]] = nd["fwd"]
+    prevs = {}
+    for p_, n_, e_, ns_ in d["edges"]:
+        prevs.setdefault(n_, []).append((p_, e_, ns_))
+    for nid, f_ in fwd.items():
+        if nid == "bos":
+            continue
+        cands_ = [fwd[p_] + e_ + ns_ for p_, e_, ns_ in prevs.get(nid, []) if e_ >= 0 and ns_ >= 0 and fwd.get(p_, -1) >= 0]
+        want_ = max(cands_) if cands_ else None
+        if (want_ is None and f_ >= 0) or (want_ is not None and f_ != want_):
+            return {"node": nid, "forward_score": f_, "best_over_predecessors": want_,
+                    "predecessors": [(p_, fwd.get(p_), e_, ns_) for p_, e_, ns_ in prevs.get(nid, [])][:8]}
+    return None
